@@ -28,6 +28,11 @@ def c16_gen(rng, tier):
                 out.append("fs%d udp=%s tcp=%s name=%s type=1 dl=5500 da=0 ud=%d" % (n, udp, tcp, gens.hx(gens.rand_name(rng)),
                                                                                  rng.choice([2300, 2700, 3200])))
                 n += 1
+    # a VERY slow server: the UDP reply comes 10.5 s after the query (deadline 12.5 s): the UDP socket of the upstream
+    # must still be there (its idle time-out is a minute; seeds C19-H / C16-M shortened it to 10 s / 2 s)
+    for udp in (("plain",) if budget(tier, 0, 1) == 0 else ("plain", "tc")):
+        out.append("fv%d udp=%s tcp=reply name=%s type=1 dl=12500 da=0 ud=10500" % (n, udp, gens.hx(gens.rand_name(rng))))
+        n += 1
     return out
 
 
@@ -40,6 +45,9 @@ def c16_oracle(line, res):
         return "reply id differs from the caller's id"
     f = gens.fields(line)
     r = gens.fields(res)
+    if f["udp"] == "plain" and "res=U" not in res:
+        return ("an untruncated UDP reply that arrived %s ms after the query, inside the caller's deadline of %s ms, was not "
+                "returned to the caller: %s" % (f.get("ud", "0"), f.get("dl"), res))
     if f["udp"] == "bigplain" and "res=U" not in res:
         return "a large (2049..4096 octets) untruncated UDP reply was not returned to the caller: " + res
     if f["udp"] in ("tc", "bigtc") and r.get("tcpq") != "1":
